@@ -110,6 +110,13 @@ pub fn spec(id: &str) -> Option<PropSpec> {
             all_of: vec!["growth_with_live", "reuse_depth_ge2", "clone"],
             rule: "mixed history run identically under every feature/profile configuration; non-trivial = it contains growth with live entities, slot reuse of depth >= 2 and a clone",
         },
+        "C14" => PropSpec {
+            id: "C14",
+            weights: vec![(Create, 30), (Destroy, 24), (Burst, 8), (Refill, 6), (CloneWorld, 4), (IterDestroy, 5), (Mint, 6), (Preset, 4), (DestroyDirect, 2), (Iterate, 2)],
+            any_of: vec!["reuse_depth_ge2"],
+            all_of: vec![],
+            rule: "history part of C14: every handle returned by a create call must carry the ARCHETYPE_ID of the archetype that created it; non-trivial = slot reuse of depth >= 2",
+        },
         "C03" => PropSpec {
             id: "C03",
             weights: vec![(Create, 20), (Forge, 40), (Destroy, 18), (Burst, 6), (Refill, 4), (CloneWorld, 3), (IterDestroy, 3), (Mint, 3), (DestroyDirect, 2), (DropWorld, 1)],
